@@ -612,6 +612,9 @@ class MarkdownNormalizer(Renderer):
             # blocks of an item it would make the list loose.
             result = f"{self._prefix}{'#' * element.level} {children_content}\n"
             self._prefix = self._second_prefix
+            # As after a paragraph: nothing is pending.
+            self._skip_next_blank_line = False
+            self._suppress_item_break = False
             return result
         else:
             # The blank line after the heading carries the container prefix (`>` inside a
